@@ -47,6 +47,15 @@ def covGet (c : Coverage) (g : Nat) : Option Nat :=
     | some r => if i + (g - r.1) < 65536 then some (i + (g - r.1)) else none
     | none => none
 
+/-- `<fmt> <items> <fmt> <items> …` -/
+def parseCovs : List String → Option (List Coverage)
+  | [] => some []
+  | fmt :: items :: rest => do
+      let c ← parseCov fmt items
+      let cs ← parseCovs rest
+      pure (c :: cs)
+  | _ => none
+
 def cmds : List String := ["digest"]
 
 def handle (ts : List String) : Option String :=
@@ -75,6 +84,9 @@ def handle (ts : List String) : Option String :=
       let d ← nats [m0, m1, m2]
       let c ← parseCov fmt items
       pure (joinNats (collect shifts d c))
+  | "lookupdigest" :: _font :: _table :: _li :: "COVS" :: covs => do
+      let cs ← parseCovs covs
+      pure (joinNats (lookupDigest shifts cs))
   | ["covget", fmt, items, g] => do
       let c ← parseCov fmt items
       let g ← g.toNat?
